@@ -22,10 +22,10 @@ META = {
     'evaluation_counters': ['judged_upset', 'judged_downset', 'judged_upset_union', 'judged_downset_union'],
     'required_counters': ['judged_upset', 'judged_downset', 'judged_upset_union', 'judged_downset_union',
                           'judged_empty_seeds', 'judged_abandoned', 'results_with_multipath_member',
-                          'seeds_with_repeats', 'seeds_with_comparable_members'],
+                          'seeds_with_repeats', 'seeds_with_comparable_members', 'interleaved_traversals'],
     'shards': {'quick': 16, 'thorough': 16},
     'exhaustive': {'quick': 'all tables <= 3x3 x all concepts, all seed pairs',
-                   'thorough': 'all tables <= 3x3, 3x4, 4x3 x all concepts, all seed pairs'},
+                   'thorough': 'all tables <= 3x3, 3x4, 4x3, 4x4 x all concepts, all seed pairs'},
     'assumptions': ['seeds that are not members of the receiving lattice are out of scope'],
 }
 
@@ -233,6 +233,22 @@ def run_case(concepts, case, spec):
         for _ in range(rng.randint(0, 3)):
             next(it, None)
         del it
+    # two traversals of the same concept alive at once (nested loops in user code): the
+    # suspended one must not lose what the other one pulls meanwhile
+    for _ in range(6):
+        c = members[rng.randrange(n)]
+        for make in ((lambda: c.upset()), (lambda: c.downset()),
+                     (lambda: lat.upset_union([c, members[rng.randrange(n)]]))):
+            it1 = call(make)
+            if it1 is RAISED:
+                continue
+            for _ in range(rng.randint(0, 2)):
+                next(it1, None)
+            it2 = call(make)
+            if it2 is not RAISED:
+                call(list, it2)
+            call(list, it1)
+            COL.count('interleaved_traversals')
     old = POOL.older(rng)
     if old is not None:
         olat, omem = old
